@@ -421,7 +421,10 @@ class AdoptSchema:
         diff_ref = rel("ne", ("param", 1), ("param", 2))
         same_obj = rel("eq", self.this, self.other)
         diff_obj = rel("ne", self.this, self.other)
-        same = same_ref or same_obj
+        # two different handle objects that name one allocation (`!ptr::eq(this, other) && Rc::ptr_eq(this, other)`) are
+        # the distinct-handles case: both records land in the one table (SYM-5 compares this with the same-handle case)
+        alias = same_obj and diff_ref and not same_ref
+        same = same_ref or (same_obj and not alias)
         diff = (diff_ref or diff_obj) and not same
         # SYM-5: what is recorded for a pair of objects must not depend on which handle objects name them
         unified = sorted(((f[1], "x", f[3], "x") for f in st.flags if f[0] == "top"), key=repr)
@@ -444,7 +447,7 @@ class AdoptSchema:
         # a record that is absent needs no subtraction: any amount matches; with the same handle on
         # both sides `this` and `other` name the same object
         def canon(bx):
-            return self.other if (same and bx == self.this) else bx
+            return self.other if ((same or alias) and bx == self.this) else bx
         ops = sorted(((o[0], canon(o[1]), o[2], canon(o[3]), one if o[4] == ABSENT else o[4]) for o in ops), key=repr)
         want = sorted(((w[0], canon(w[1]), w[2], canon(w[3]), w[4]) for w in want), key=repr)
         if ops != want:
@@ -1019,14 +1022,22 @@ def _strip_int_casts(e):
     return e
 
 
-def const_is_value_offset(d, facts):
-    """A constant of the crate whose body is `offset_of!(RcBox<T>, value)`."""
+def const_is_value_offset(d, facts, depth=0):
+    """A constant of the crate whose body is `offset_of!(RcBox<T>, value)` (possibly through integer casts and nested
+    inline constants: `const { offset_of!(RcBox<T>, value) as isize }`)."""
     import re
-    if facts is None or d[0] != "const" or d[1] is not None or not d[2]:
+    if facts is None or d[0] != "const" or d[1] is not None or not d[2] or depth > 3:
         return False
     name = re.sub(r"::<[^>]*>", "", d[2])
     for path, c in facts.consts.items():
         if path.endswith(name) or path.endswith("::" + name):
+            if len(c["blocks"]) == 1 and c["blocks"][0]["term"]["k"] == "return" and len(c["blocks"][0]["stmts"]) == 1:
+                s0 = c["blocks"][0]["stmts"][0]
+                rv = s0.get("rv") or {}
+                op = rv.get("op") if rv.get("k") in ("use", "cast") and (rv.get("k") == "use" or rv.get("ck") == "IntToInt") else None
+                if s0["k"] == "assign" and s0["dst"] == {"l": 0, "p": []} and isinstance(op, dict) and op.get("k") == "const" and "int" not in op and op.get("desc"):
+                    if const_is_value_offset(("const", None, op["desc"]), facts, depth + 1):
+                        return True
             for blk in c["blocks"]:
                 t = blk["term"]
                 if t["k"] == "call" and t["callee"] and t["callee"]["def"] == "core::intrinsics::offset_of":
